@@ -503,7 +503,10 @@ def ackBlock (s : Tcb) (seg : Hdr) : B :=
 def rstBlock (s : Tcb) (seg : Hdr) : B :=
   if !seg.ctl.rst then .ok (s, none) else
   match s.state with
-  | .SynSent => if seg.seq = s.rcv.nxt then .ok (s, some .ConnectionReset) else .ok (s, some .BlindReset)
+  | .SynSent =>
+    -- 3.10.7.3, second: "Otherwise (no ACK), drop the segment and return."
+    if !seg.ctl.ack then .ok (s, some .DiscardSegment)
+    else if seg.seq = s.rcv.nxt then .ok (s, some .ConnectionReset) else .ok (s, some .BlindReset)
   | .SynReceived =>
     match s.initiation with
     | .Listen => .ok (s, some .ReturnToListen)
